@@ -292,6 +292,9 @@ func shortFuncName(f *ssa.Function) string {
 	if f == nil {
 		return "?"
 	}
+	if f.Pkg == nil {
+		return f.String() // instantiations of generic functions and other synthetic functions have no package
+	}
 	s := f.RelString(f.Pkg.Pkg)
 	if f.Pkg != nil && strings.HasSuffix(f.Pkg.Pkg.Path(), "http2utils") {
 		s = "http2utils." + s
